@@ -75,6 +75,7 @@ Definition idx_del (ix : index) (s : status) (t : positive) : index :=
   end.
 
 Record subjob := mkSub {
+  sj_min : Z;                          (* SubJobInfo.MinAvailable *)
   sj_tasks : gset positive;
   sj_index : index;
 }.
@@ -83,6 +84,8 @@ Record job := mkJob {
   j_id : positive;
   j_queue : positive;
   j_min : Z;                          (* MinAvailable *)
+  j_role_min : gmap positive Z;       (* TaskMinAvailable: role -> minimum *)
+  j_role_total : Z;                   (* TaskMinAvailableTotal *)
   j_tasks : gset positive;            (* keys of JobInfo.Tasks *)
   j_index : index;                    (* TaskStatusIndex *)
   j_alloc : res;                      (* Allocated *)
@@ -104,17 +107,18 @@ Variable eps : Z.
 
 (* ---------- JobInfo ---------- *)
 
-Definition empty_sub : subjob := mkSub ∅ ∅.
+(* getOrCreateDefaultSubJob: SubGroupSize = the job's MinAvailable when there is no policy *)
+Definition empty_sub (j : job) : subjob := mkSub (j_min j) ∅ ∅.
 
 (* JobInfo.AddTaskInfo(ti) *)
 Definition job_add (j : job) (t : task) : job :=
-  let sj := default empty_sub (j_subs j !! t_sub t) in
-  mkJob (j_id j) (j_queue j) (j_min j)
+  let sj := default (empty_sub j) (j_subs j !! t_sub t) in
+  mkJob (j_id j) (j_queue j) (j_min j) (j_role_min j) (j_role_total j)
     ({[t_id t]} ∪ j_tasks j)
     (idx_add (j_index j) (t_status t) (t_id t))
     (if allocated_status (t_status t) then add (j_alloc j) (t_req t) else j_alloc j)
     (add (j_total j) (t_req t))
-    (<[t_sub t := mkSub ({[t_id t]} ∪ sj_tasks sj) (idx_add (sj_index sj) (t_status t) (t_id t))]> (j_subs j))
+    (<[t_sub t := mkSub (sj_min sj) ({[t_id t]} ∪ sj_tasks sj) (idx_add (sj_index sj) (t_status t) (t_id t))]> (j_subs j))
     (<[t_id t := t_sub t]> (j_task_sub j)).
 
 (* JobInfo.DeleteTaskInfo(ti): everything is keyed by the STORED object
@@ -126,13 +130,13 @@ Definition job_del (j : job) (stored : task) : job :=
     match j_task_sub j !! t_id stored with
     | Some sid =>
       match j_subs j !! sid with
-      | Some sj => <[sid := mkSub (sj_tasks sj ∖ {[t_id stored]})
+      | Some sj => <[sid := mkSub (sj_min sj) (sj_tasks sj ∖ {[t_id stored]})
                                   (idx_del (sj_index sj) (t_status stored) (t_id stored))]> (j_subs j)
       | None => j_subs j
       end
     | None => j_subs j
     end in
-  mkJob (j_id j) (j_queue j) (j_min j)
+  mkJob (j_id j) (j_queue j) (j_min j) (j_role_min j) (j_role_total j)
     (j_tasks j ∖ {[t_id stored]})
     (idx_del (j_index j) (t_status stored) (t_id stored))
     (if allocated_status (t_status stored) then sub (j_alloc j) (t_req stored) else j_alloc j)
